@@ -82,6 +82,7 @@ def job_newton_step(n):
 def Abs(x): return z3.If(x >= 0, x, -x)
 
 def job_rule(n, orient):
+    T1 = 60000 if n <= 3 else 20000; T2 = 120000 if n <= 3 else 30000      # n = 4 is attempted with short budgets: most of its queries are beyond nlsat within minutes and end undecided
     res = []; tag = 'rule/n%d/%s' % (n, orient)
     pre = [A < B] if orient == 'fwd' else [A > B]
     zs, cons, paths, rs = rule(n, A, B, pre)
@@ -97,18 +98,18 @@ def job_rule(n, orient):
         for i in range(m):
             z = zs[i]; dP = z3.simplify(ddx(z3.simplify(legendre(n, z), som=True), z), som=True)
             res.append(prove('%s/node[%d,%d]' % (tag, pi, i), hyp, z3.And(roots[i] == mid - hw * z, roots[n - 1 - i] == mid + hw * z), 30000, mv, key='C12/rule/node-formula', tactic='nra'))
-            res.append(prove('%s/weight[%d,%d]' % (tag, pi, i), hyp, z3.And(wts[i] * ((1 - z * z) * dP * dP) == 2 * hw, wts[n - 1 - i] == wts[i]), 60000, mv, key='C12/rule/weight-formula', tactic='nra', sample=(i == 0 and n == 2 and orient == 'fwd')))
+            res.append(prove('%s/weight[%d,%d]' % (tag, pi, i), hyp, z3.And(wts[i] * ((1 - z * z) * dP * dP) == 2 * hw, wts[n - 1 - i] == wts[i]), T1, mv, key='C12/rule/weight-formula', tactic='nra', sample=(i == 0 and n == 2 and orient == 'fwd')))
         sgn_ = 1 if orient == 'fwd' else -1
         for i in range(n - 1):
-            res.append(prove('%s/nodes-ordered[%d,%d]' % (tag, pi, i), hyp, (roots[i] < roots[i + 1]) if orient == 'fwd' else (roots[i] > roots[i + 1]), 60000, mv, key='C12/rule/nodes-ordered', tactic='nra'))
+            res.append(prove('%s/nodes-ordered[%d,%d]' % (tag, pi, i), hyp, (roots[i] < roots[i + 1]) if orient == 'fwd' else (roots[i] > roots[i + 1]), T1, mv, key='C12/rule/nodes-ordered', tactic='nra'))
         for i in range(n):
             lo, hi = (A, B) if orient == 'fwd' else (B, A)
-            res.append(prove('%s/node-inside[%d,%d]' % (tag, pi, i), hyp, z3.And(lo < roots[i], roots[i] < hi), 60000, mv, key='C12/rule/node-inside', tactic='nra'))
-            res.append(prove('%s/weight-sign[%d,%d]' % (tag, pi, i), hyp, wts[i] * sgn_ > 0, 60000, mv, key='C12/rule/weight-sign', tactic='nra'))
-            res.append(prove('%s/symmetric[%d,%d]' % (tag, pi, i), hyp, z3.And(roots[i] + roots[n - 1 - i] == A + B, wts[i] == wts[n - 1 - i]), 60000, mv, key='C12/rule/symmetric', tactic='nra'))
+            res.append(prove('%s/node-inside[%d,%d]' % (tag, pi, i), hyp, z3.And(lo < roots[i], roots[i] < hi), T1, mv, key='C12/rule/node-inside', tactic='nra'))
+            res.append(prove('%s/weight-sign[%d,%d]' % (tag, pi, i), hyp, wts[i] * sgn_ > 0, T1, mv, key='C12/rule/weight-sign', tactic='nra'))
+            res.append(prove('%s/symmetric[%d,%d]' % (tag, pi, i), hyp, z3.And(roots[i] + roots[n - 1 - i] == A + B, wts[i] == wts[n - 1 - i]), T1, mv, key='C12/rule/symmetric', tactic='nra'))
         for d in range(0, 2 * n):
             lhs = sum((wts[i] * roots[i] ** d if d else wts[i]) for i in range(n)); ex = (B ** (d + 1) - A ** (d + 1)) / (d + 1)
-            res.append(prove('%s/exact-degree-%d[%d]' % (tag, d, pi), hyp, lhs == ex, 120000, mv, key='C12/rule/exactness', tactic='nra'))
+            res.append(prove('%s/exact-degree-%d[%d]' % (tag, d, pi), hyp, lhs == ex, T2, mv, key='C12/rule/exactness', tactic='nra'))
     return res
 
 def job_mirror(n):
